@@ -31,3 +31,8 @@ func (s *SharedFile) VerifState() VerifState {
 
 // VerifPoolHandle returns the per-member pool registration token.
 func (s *SharedFile) VerifPoolHandle() *fdpool.Handle { return &s.poolHandle }
+
+// VerifMutex returns the address of s.mu (as any: the harness builds this
+// package with the import of "sync" redirected to a scheduling shim, so the
+// static type differs between builds).
+func (s *SharedFile) VerifMutex() any { return &s.mu }
